@@ -39,6 +39,25 @@ def race_summary(rep):
     return sorted(set(fns)), lines
 
 
+def crashed(err):
+    """the Go runtime killed the process (unrecoverable: concurrent map writes, unlock of unlocked mutex, ...) or an
+    unrecovered panic escaped - with the cache's own frames on the stack"""
+    return bool(err) and ("fatal error:" in err or "panic:" in err) and "LRUCache" in err
+
+
+def crash_excerpt(err):
+    ls = err.splitlines()
+    i = next((k for k, l in enumerate(ls) if l.startswith("fatal error:") or l.startswith("panic:")), 0)
+    fr = [l.strip() for l in ls[i:i + 60] if "LRUCache" in l][:3]
+    return (ls[i] if ls else "") + " | " + " | ".join(fr)
+
+
+def finish_after_crash(ctx, table):
+    cov = dict(states=ctx.states, transitions=ctx.transitions, traces_validated_against_impl=0, evaluations=1, distinct_nontrivial=0,
+               lock_table=table, samples=[dict(note="run ended early: the harness process crashed inside the cache")], exhaustive=False)
+    return ctx.finish("model_checking", cov, ["run ended early after a crash of the harness process inside the cache"])
+
+
 def run(ctx):
     quick = ctx.quick()
     vh = ctx.build_vh()
@@ -136,6 +155,10 @@ def run(ctx):
     if "aborted after history" in err:
         ctx.log("conc-record:", [l for l in err.splitlines() if "aborted after history" in l][0][:300])
     m = re.search(r"histories=(\d+) overlapping=(\d+)", err)
+    if not m and crashed(err):
+        ctx.candidate(dict(src="record", what="crash"), "the process recording concurrent histories crashed inside the cache: " + crash_excerpt(err),
+                      dict(kind="record-crash", stderr=err[-3000:]))
+        return finish_after_crash(ctx, table)
     if not m:
         raise MachineryError("conc-record failed: " + err[-1500:])
     histories, overlapping = int(m.group(1)), int(m.group(2))
@@ -171,6 +194,10 @@ def run(ctx):
     longf = ctx.path("lrulong.ndjson")
     rr, err, races3 = run_race(ctx, vhr, ["lru-conc-long", "-procs", "16", "-ops", "300" if quick else "1500", "-caps", "0,1,2,4,8",
                                           "-keys", "12", "-rounds", "5" if quick else "10", "-out", longf], timeout=1800)
+    if rr is not None and rr.returncode not in (0, 66) and crashed(err):
+        ctx.candidate(dict(src="long", what="crash"), "the long concurrent run crashed inside the cache: " + crash_excerpt(err),
+                      dict(kind="long-crash", stderr=err[-3000:]))
+        return finish_after_crash(ctx, table)
     if rr is None or rr.returncode not in (0, 66):
         raise MachineryError("conc-long failed: " + (err or "")[-1500:])
     if races3 and not reproduced and not ctx.violations:
